@@ -245,7 +245,7 @@ def _tail(out):
     return "\n".join(keep)[-1500:]
 
 
-def native_replay(unit, workdir, crate_dir, harness, script_path, release=False):
+def native_replay(unit, workdir, crate_dir, harness, script_path, release=False, search=False):
     """Run the same harness body natively against the really compiled code with the script values."""
     tgt = os.path.join(CACHE, "native-" + unit["name"])
     env = dict(os.environ)
@@ -253,6 +253,8 @@ def native_replay(unit, workdir, crate_dir, harness, script_path, release=False)
     env["CARGO_TARGET_DIR"] = tgt
     env["VERIF_HARNESS"] = harness
     env["VERIF_SCRIPT"] = script_path
+    if search:
+        env["VERIF_SEARCH"] = "1"
     flags = unit.get("native_rustflags", "")
     env["RUSTFLAGS"] = (flags + " --cfg verif_replay -A warnings").strip()
     cmd = ["cargo", "test", "--offline", "--lib"]
@@ -278,8 +280,10 @@ def native_replay(unit, workdir, crate_dir, harness, script_path, release=False)
         out = (e.stdout or "") + "\nTIMEOUT"
         rc = -9
     m = re.search(r"REPLAY-FAIL (\S+)", out)
+    sm = re.search(r"SEARCH-SCRIPT ([0-9 ]*)", out)
     return dict(rc=rc, failed_label=m.group(1).rstrip(":") if m else None,
-                completed="REPLAY-DONE" in out, tail=_tail(out), release=release)
+                completed="REPLAY-DONE" in out, tail=_tail(out), release=release,
+                search_script=sm.group(1).strip() if sm else None)
 
 
 # --------------------------------------------------------------------------------------------
@@ -472,10 +476,20 @@ def replay_violation(unit, workdir, crate_dir, h, v, pid, tmo, mem):
     base = os.path.join(rdir, h["name"].replace("::", "__") + "--" + v["label"].replace("/", "_"))
     logpath = os.path.join(WORK_ROOT, "%s-playback.log" % unit["name"])
     # the driver itself parses the (large) CBMC trace for playback: give it room
-    rc, _, _ = run_kani(unit, workdir, crate_dir, [h["name"]], max(3 * tmo, 600), 1, max(mem, 44), unit.get("kani_flags", []), logpath, playback=True)
+    rc, _, _ = run_kani(unit, workdir, crate_dir, [h["name"]], max(3 * tmo, 600), 1, int(os.environ.get("VERIF_PLAYBACK_MEM_GB", "58")), unit.get("kani_flags", []), logpath, playback=True)
     txt = open(logpath, errors="replace").read()
     vals = extract_playback(txt, None if v.get("kind") == "panic" else v["label"])
     rp = dict(path=base + ".json", harness=h["name"], label=v["label"], desc=v["desc"], loc=v["loc"])
+    if not vals and h.get("native_search"):
+        # Kani's trace was too large for concrete playback: enumerate the harness' small finite input
+        # domain natively until a labelled assertion of this harness fails (the solver's verdict stays
+        # the deciding step; this is the replay guard against model/stub artefacts)
+        nat = native_replay(unit, workdir, crate_dir, h["name"], "/dev/null", release=False, search=True)
+        rp["native_search"] = nat
+        rp["note"] = "Kani printed no concrete playback (trace too large); counterexample found by native enumeration of the harness domain"
+        rp["reproduced"] = nat["failed_label"] in v.get("siblings", [v["label"]])
+        json.dump(rp, open(rp["path"], "w"), indent=1)
+        return rp
     if not vals:
         rp["error"] = "Kani printed no concrete playback"
         json.dump(rp, open(rp["path"], "w"), indent=1)
